@@ -284,6 +284,8 @@ Section Rel.
     - (* CDyn *) now constructor.
     - (* CNum *) inversion HV; subst; try (apply relR_blame). constructor. constructor.
     - (* CStr *) inversion HV; subst; try (apply relR_blame). constructor. constructor.
+    - (* CGt *) inversion HV; subst; try (apply relR_blame).
+      destruct (Z.ltb k z); [constructor; constructor | apply relR_blame].
     - (* CArr *)
       inversion HV; subst; try (apply relR_blame).
       constructor. apply RV_arr'. intros q1 q2 n S1 S2. unfold prim_array_lazy_app in *.
